@@ -316,6 +316,7 @@ class Env(object):
         self.flush_snapshots = []
         self.keep = []         # futures kept alive for the whole case
         self.cwc_seen = {}     # cid -> the exception call_with_context's context was told about at exit
+        self.premade = set()   # tids of tasks created by the starting code (prog["premade"])
         self.gens = {}         # (tid, gid) -> async generator object iterated by hand
         self.tool_uid = 0      # items created inside library-tool bodies get negative uids
         self.dd_inside = {}    # deduplicated tool bodies: key -> the body is re-entering itself right now
@@ -951,6 +952,8 @@ def exec_block(env, rec, me, body):
             result(["tv", tid, digest(rec.got)])
         elif op == "mk":
             t = st["task"]
+            if t["id"] in env.premade:
+                continue        # this task object was created by the starting code, before the computation began
             r = env.recs[t["id"]] = Rec(t, None, "mk")
             r.handle = run_task.asynq(env, t)
         elif op == "genstart":
@@ -1082,7 +1085,22 @@ def prepare(prog):
     root = prog["root"]
     rec = env.recs[root["id"]] = Rec(root, None, "root")
     rec.handle = run_task.asynq(env, root)
+    premake(env)
     return env
+
+
+def premake(env):
+    """prog["premade"]: the task objects that the root's leading ``mk`` statements would create are created by the starting
+    code instead (outside any task, possibly long before the computation that awaits them)"""
+    if not env.prog.get("premade") or env.premade:
+        return
+    for st in env.prog["root"]["body"]:
+        if st["op"] != "mk":
+            break
+        t = st["task"]
+        r = env.recs[t["id"]] = Rec(t, None, "mk")
+        r.handle = run_task.asynq(env, t)
+        env.premade.add(t["id"])
 
 
 @A()
@@ -1212,6 +1230,7 @@ def run_program(prog, check_c04=False, check_c06=False, reset=True, options=None
     sch.on_before_batch_flush.subscribe(before)
     sch.on_after_batch_flush.subscribe(after)
     conv = prog.get("conv", "value")
+    premake(env)
     real_utime = asynq.scheduler.utime
     if clock is not None:
         asynq.scheduler.utime = clock
